@@ -5,31 +5,37 @@
    validity of the witness; window of the update) must be the one the specification computes. *)
 EXTENDS Revocation, Json
 Tr == ndJsonDeserialize("trace.ndjson")
-VARIABLE l
+VARIABLES l, nsp      \* position in the trace; number of spare object ids used
 E == Tr[l]
 Class(res) == IF res \in {"noop", "ok", "oktime"} THEN "nil" ELSE IF res = "revoked" THEN "revoked" ELSE "error"
 
 TReset == /\ E.ev = "reset" /\ rev' = <<>>
-          /\ wit' = [w \in W |-> [issued |-> FALSE, idx |-> 0, t |-> 0, good |-> TRUE]]
-          /\ upd' = [k \in U |-> [made |-> FALSE, first |-> 0, last |-> 0, t |-> 0, memo |-> None]]
+          /\ wit' = [w \in W |-> [issued |-> FALSE, idx |-> 0, o |-> 0, good |-> TRUE]]
+          /\ upd' = [k \in U |-> [made |-> FALSE, first |-> 0, last |-> 0, o |-> 0, memo |-> None]]
+          /\ tobj' = [x \in DOMAIN tobj |-> 0] /\ nsp' = 0
           /\ nstep' = 0 /\ last' = NoResult
 TRevoke == E.ev = "revoke" /\ IF E.id = Other THEN RevokeOther ELSE RevokeWit(E.id)
 TIssue == E.ev = "issue" /\ Issue(E.w, E.good)
 TMake == E.ev = "mkupd" /\ MakeUpdate(E.k, E.f, E.t)
+\* the test driver drops update object k: witnesses that share its accumulator object keep it, so it moves to a spare id
 TDiscard == /\ E.ev = "discard" /\ upd' = [upd EXCEPT ![E.k].made = FALSE]
-            /\ UNCHANGED <<rev, wit, nstep>> /\ last' = NoResult
+            /\ nsp < Spare /\ nsp' = nsp + 1
+            /\ LET old == NW + E.k  new == NW + NU + nsp + 1 IN
+                 /\ tobj' = [tobj EXCEPT ![new] = tobj[old]]
+                 /\ wit' = [w \in W |-> IF wit[w].o = old THEN [wit[w] EXCEPT !.o = new] ELSE wit[w]]
+            /\ UNCHANGED <<rev, nstep>> /\ last' = NoResult
 TApply == /\ E.ev = "apply" /\ Apply(E.w, E.k)
           /\ Class(last'.res) = E.class
-          /\ wit'[E.w].idx = E.idx /\ wit'[E.w].t = E.t /\ wit'[E.w].good = E.valid
+          /\ wit'[E.w].idx = E.idx /\ tobj'[wit'[E.w].o] = E.t /\ wit'[E.w].good = E.valid
 TPrepend == /\ E.ev = "prepend" /\ Prepend(E.k, E.g, E.h, E.p)
             /\ Class(last'.res) = E.class
             /\ upd'[E.k].first = E.first /\ upd'[E.k].last = E.last
 TPrependForeign == /\ E.ev = "prependforeign" /\ PrependForeign(E.k, E.g, E.h, E.p)
                    /\ E.class = "error" /\ upd[E.k].first = E.first /\ upd[E.k].last = E.last
-TNext == l <= Len(Tr) /\ l' = l + 1 /\ (TReset \/ TRevoke \/ TIssue \/ TMake \/ TDiscard \/ TApply \/ TPrepend \/ TPrependForeign)
-TInit == Init /\ l = 1
-TSpec == TInit /\ [][TNext]_<<vars, l>>
-TMonotone == [][(l <= Len(Tr) /\ Tr[l].ev # "reset") => MonotoneA]_<<vars, l>>
+TNext == l <= Len(Tr) /\ l' = l + 1 /\ (E.ev \notin {"reset", "discard"} => nsp' = nsp) /\ (TReset \/ TRevoke \/ TIssue \/ TMake \/ TDiscard \/ TApply \/ TPrepend \/ TPrependForeign)
+TInit == Init /\ l = 1 /\ nsp = 0
+TSpec == TInit /\ [][TNext]_<<vars, l, nsp>>
+TMonotone == [][(l <= Len(Tr) /\ Tr[l].ev # "reset") => MonotoneA]_<<vars, l, nsp>>
 Accepted == LET d == TLCGet("stats").diameter IN
               IF d - 1 = Len(Tr) THEN TRUE
               ELSE Print(<<"TRACE REJECTED at line", d, IF d <= Len(Tr) THEN Tr[d] ELSE "eof">>, FALSE)
